@@ -39,6 +39,14 @@ FUNCS = [
     ('geophires_x/Economics.py', 'BuildPricingModel', {}),
     ('geophires_x/Economics.py', 'CalculateTotalRevenue', {'AnnualRev': 'List'}),
     ('geophires_x/Economics.py', 'CalculateRevenue', {'Energy': 'List', 'Price': 'List'}),
+    ('geophires_x/WellBores.py', 'InjectionReservoirPressurePredictor', {}),
+]
+
+# statement sequences inside methods: (file, class, method, name of the generated def, first statement (source text of its target),
+#   number of statements, {attribute chain: (identifier, type)} for the inputs, attribute chain of the result)
+FRAGMENTS = [
+    ('geophires_x/Economics.py', 'Economics', 'Calculate', 'PaybackFragment', 'self.ProjectPaybackPeriod.value', 2,
+     {'self.TotalCummRevenue.value': ('TotalCummRevenue', 'List')}, 'self.ProjectPaybackPeriod.value', ('ProjectPaybackPeriod', 'Rat')),
 ]
 
 ANNOT = {'int': 'Int', 'float': 'Rat', 'bool': 'Bool', 'list': 'List'}
@@ -61,10 +69,14 @@ def rat_lit(x) -> str:
 
 
 class Tr:
-    def __init__(self, fn: ast.FunctionDef, overrides: dict):
+    def __init__(self, fn: ast.FunctionDef, overrides: dict, attrs: dict | None = None):
         self.fn = fn
         self.types: dict[str, str] = {}
         self.params = []
+        self.attrs = {k: v[0] for k, v in (attrs or {}).items()}     # attribute chain text -> identifier
+        for k, (name, t) in (attrs or {}).items():
+            if t is not None:
+                self.types[name] = t
         for a in fn.args.args:
             if a.arg == 'self':
                 raise Unsupported('method')
@@ -96,6 +108,11 @@ class Tr:
             if isinstance(v, float):
                 return rat_lit(v), 'Rat'
             raise Unsupported(f'constant {v!r}')
+        if isinstance(e, ast.Attribute) and ast.unparse(e) in self.attrs:
+            n = self.attrs[ast.unparse(e)]
+            if n not in self.types:
+                raise Unsupported(f'{ast.unparse(e)} read before it is assigned')
+            return ident(n), self.types[n]
         if isinstance(e, ast.Name):
             if e.id not in self.types:
                 raise Unsupported(f'unknown name {e.id}')
@@ -106,20 +123,13 @@ class Tr:
         if isinstance(e, ast.UnaryOp) and isinstance(e.op, ast.Not):
             return f'(¬ {self.cond(e.operand)})', 'Prop'
         if isinstance(e, ast.BinOp):
-            # [c] * n
-            if isinstance(e.op, ast.Mult) and isinstance(e.left, ast.List) and len(e.left.elts) == 1:
-                c, ct = self.expr(e.left.elts[0])
-                n, nt = self.expr(e.right)
-                if nt != 'Int':
-                    raise Unsupported('list repetition count must be an int')
-                return f'(Py.replicate {n} {self.to_rat(c, ct)})', 'List'
+            # [c] * n  and  ([c] * n) * m == [c] * (n * m)
+            rep = self.list_rep(e)
+            if rep is not None:
+                c, n = rep
+                return f'(Py.replicate {n} {c})', 'List'
             a, ta = self.expr(e.left)
             b, tb = self.expr(e.right)
-            if ta == 'List' and isinstance(e.op, ast.Mult) and tb == 'Int' and a.startswith('(Py.replicate '):
-                # ([c] * n) * m  ==  [c] * (n * m)
-                inner = a[len('(Py.replicate '):-1]
-                n, _, c = inner.rpartition(' ') if not inner.endswith(')') else (None, None, None)
-                raise Unsupported('chained list repetition')
             if ta not in ('Int', 'Rat') or tb not in ('Int', 'Rat'):
                 raise Unsupported(f'arithmetic on {ta}, {tb}')
             ops = {ast.Add: '+', ast.Sub: '-', ast.Mult: '*'}
@@ -155,6 +165,9 @@ class Tr:
             if isinstance(e.func, ast.Name) and e.func.id == 'int' and len(e.args) == 1:
                 a, ta = self.expr(e.args[0])
                 return (a, 'Int') if ta == 'Int' else (f'(Py.trunc {a})', 'Int')
+            if ast.unparse(e.func) in ('math.fabs', 'abs', 'np.abs', 'np.fabs') and len(e.args) == 1:
+                a, ta = self.expr(e.args[0])
+                return f'(Py.fabs {self.to_rat(a, ta)})', 'Rat'
             if isinstance(e.func, ast.Attribute) and e.func.attr == 'copy' and not e.args:
                 return self.expr(e.func.value)
             raise Unsupported(f'call {ast.unparse(e.func)}')
@@ -167,6 +180,22 @@ class Tr:
             return f'(if {c} then {self.to_rat(a, ta)} else {self.to_rat(b, tb)})', 'Rat'
         raise Unsupported(f'expression {type(e).__name__}: {ast.unparse(e)}')
 
+    def list_rep(self, e: ast.AST):
+        if isinstance(e, ast.BinOp) and isinstance(e.op, ast.Mult):
+            if isinstance(e.left, ast.List) and len(e.left.elts) == 1:
+                c, ct = self.expr(e.left.elts[0])
+                n, nt = self.expr(e.right)
+                if nt != 'Int':
+                    raise Unsupported('list repetition count must be an int')
+                return self.to_rat(c, ct), n
+            inner = self.list_rep(e.left)
+            if inner is not None:
+                n, nt = self.expr(e.right)
+                if nt != 'Int':
+                    raise Unsupported('list repetition count must be an int')
+                return inner[0], f'({inner[1]} * {n})'
+        return None
+
     def cond(self, e: ast.AST) -> str:
         if isinstance(e, ast.BoolOp):
             op = ' ∧ ' if isinstance(e.op, ast.And) else ' ∨ '
@@ -175,7 +204,12 @@ class Tr:
             return f'(¬ {self.cond(e.operand)})'
         if isinstance(e, ast.Compare):
             if len(e.ops) != 1:
-                raise Unsupported('chained comparison')
+                parts = []
+                left = e.left
+                for op, right in zip(e.ops, e.comparators):
+                    parts.append(self.cond(ast.Compare(left=left, ops=[op], comparators=[right])))
+                    left = right
+                return '(' + ' ∧ '.join(parts) + ')'
             a, ta = self.expr(e.left)
             b, tb = self.expr(e.comparators[0])
             ops = {ast.Lt: '<', ast.LtE: '≤', ast.Gt: '>', ast.GtE: '≥', ast.Eq: '=', ast.NotEq: '≠'}
@@ -191,8 +225,7 @@ class Tr:
         raise Unsupported(f'truth value of a {t}')
 
     # -- statements ----------------------------------------------------------------------------------------------------
-    @staticmethod
-    def assigned(stmts) -> list[str]:
+    def assigned(self, stmts) -> list[str]:
         out: list[str] = []
 
         def add(n):
@@ -207,13 +240,17 @@ class Tr:
                         add(t.id)
                     elif isinstance(t, ast.Subscript) and isinstance(t.value, ast.Name):
                         add(t.value.id)
+                    elif isinstance(t, ast.Attribute) and ast.unparse(t) in self.attrs:
+                        add(self.attrs[ast.unparse(t)])
+                    elif isinstance(t, ast.Subscript) and ast.unparse(t.value) in self.attrs:
+                        add(self.attrs[ast.unparse(t.value)])
                     else:
                         raise Unsupported('assignment target')
             elif isinstance(s, ast.For):
-                for n in Tr.assigned(s.body):
+                for n in self.assigned(s.body):
                     add(n)
             elif isinstance(s, ast.If):
-                for n in Tr.assigned(s.body) + Tr.assigned(s.orelse):
+                for n in self.assigned(s.body) + self.assigned(s.orelse):
                     add(n)
         return out
 
@@ -255,13 +292,16 @@ class Tr:
                 v, vt = self.expr(s.value)
                 if isinstance(t, ast.Name):
                     out.append(self.assign(t.id, v, vt, ind))
-                elif isinstance(t, ast.Subscript) and isinstance(t.value, ast.Name):
-                    if self.types.get(t.value.id) != 'List':
+                elif isinstance(t, ast.Attribute) and ast.unparse(t) in self.attrs:
+                    out.append(self.assign(self.attrs[ast.unparse(t)], v, vt, ind))
+                elif isinstance(t, ast.Subscript) and (isinstance(t.value, ast.Name) or ast.unparse(t.value) in self.attrs):
+                    base = t.value.id if isinstance(t.value, ast.Name) else self.attrs[ast.unparse(t.value)]
+                    if self.types.get(base) != 'List':
                         raise Unsupported('item assignment to a non-list')
                     i, ti = self.expr(t.slice)
                     if ti != 'Int':
                         raise Unsupported('non-integer index')
-                    out.append(f'{ind}let {ident(t.value.id)} := Py.set {ident(t.value.id)} {i} {self.to_rat(v, vt)}')
+                    out.append(f'{ind}let {ident(base)} := Py.set {ident(base)} {i} {self.to_rat(v, vt)}')
                 else:
                     raise Unsupported('assignment target')
             elif isinstance(s, ast.AugAssign):
@@ -301,13 +341,25 @@ class Tr:
                         del self.types[n]
                 for n in state:
                     self.types[n] = saved[n]
+            elif isinstance(s, ast.If) and s.body and isinstance(s.body[-1], ast.Return) and not s.orelse and stmts is self.fn.body:
+                # early return at the top level:  if c: …; return X   <rest>   ==>   if c then (…; X) else (<rest>)
+                c = self.cond(s.test)
+                before = dict(self.types)
+                self._early = True
+                b1 = self.block(s.body, ind + '    ')
+                r1 = self.ret_type
+                self.types = dict(before)
+                rest = stmts[stmts.index(s) + 1:]
+                b2 = self.block(rest, ind + '    ')
+                if r1 != self.ret_type:
+                    raise Unsupported('return types differ')
+                out.append(f'{ind}if {c} then (')
+                out += b1 + [f'{ind}    ) else ('] + b2 + [f'{ind}    )']
+                return out
             elif isinstance(s, ast.If):
                 c = self.cond(s.test)
-                names = self.assigned(s.body + s.orelse)
                 before = dict(self.types)
-                new = [n for n in names if n not in before]
-                if new:
-                    raise Unsupported(f'variables first assigned inside a conditional: {new}')
+                names = [n for n in self.assigned(s.body + s.orelse) if n in before]   # names first assigned inside a branch stay local to it
                 if not names:
                     raise Unsupported('conditional without effect')
                 b1 = self.block(s.body, ind + '    ')
@@ -321,7 +373,7 @@ class Tr:
                 if len(names) > 1:
                     out += self.unpack(names, 'st', ind)
             elif isinstance(s, ast.Return):
-                if s is not stmts[-1] or s is not self.fn.body[-1]:
+                if s is not stmts[-1] or not (s is self.fn.body[-1] or getattr(self, '_early', False)):
                     raise Unsupported('return before the end')
                 if isinstance(s.value, ast.Tuple):
                     parts = [self.expr(v) for v in s.value.elts]
@@ -339,7 +391,7 @@ class Tr:
         body = self.block(self.fn.body, '  ')
         if self.ret_type is None:
             raise Unsupported('no return')
-        ps = ' '.join(f'({ident(n)} : {LEAN_T[t]})' for n, t in self.params)
+        ps = ' '.join(f'({ident(n)} : {LEAN_T[t]})' for n, t in self.params + getattr(self, 'extra_params', []))
         return f'def {ident(self.fn.name)} {ps} : {self.ret_type} :=\n' + '\n'.join(body) + '\n'
 
 
@@ -364,7 +416,45 @@ def generate() -> tuple[str, dict]:
             # keep the library building: the property theorem about this name will not (that is the broken tie)
             text = f'/- {name}: NOT TRANSLATABLE ({ex}) -/\n'
             info[name] = {'file': rel, 'translated': False, 'why': str(ex)}
-        parts.append(f'/-- transcription of `{name}` ({rel}) -/\n' + text)
+        parts.append((f'/-- transcription of `{name}` ({rel}) -/\n' if info[name]['translated'] else '') + text)
+    for rel, cls, meth, name, first, count, inputs, result, (rname, rtype) in FRAGMENTS:
+        path = SRC / rel
+        try:
+            tree = ast.parse(path.read_text())
+            cdef = next(n for n in tree.body if isinstance(n, ast.ClassDef) and n.name == cls)
+            mdef = next(n for n in cdef.body if isinstance(n, ast.FunctionDef) and n.name == meth)
+            frag = None
+            for node in ast.walk(mdef):
+                for fld in ('body', 'orelse'):
+                    seq = getattr(node, fld, None)
+                    if not isinstance(seq, list):
+                        continue
+                    for k, st in enumerate(seq):
+                        if isinstance(st, ast.Assign) and len(st.targets) == 1 and ast.unparse(st.targets[0]) == first:
+                            if frag is None:     # ast.walk is breadth-first: the outermost occurrence; others are checked below
+                                frag = seq[k:k + count]
+            if frag is None or len(frag) != count:
+                raise Unsupported(f'statements starting at `{first} = …` not found')
+            # no other statement of the method may assign the result (the fragment is all that computes it)
+            others = [n for n in ast.walk(mdef) if isinstance(n, (ast.Assign, ast.AugAssign))
+                      and any(ast.unparse(t) == result for t in (n.targets if isinstance(n, ast.Assign) else [n.target]))
+                      and not any(n is x for f in frag for x in ast.walk(f))]
+            if others:
+                raise Unsupported(f'{result} is also assigned outside the fragment')
+            ret = ast.Return(value=ast.parse(result, mode='eval').body)
+            fn = ast.FunctionDef(name=name, args=ast.arguments(posonlyargs=[], args=[], kwonlyargs=[], kw_defaults=[], defaults=[]),
+                                 body=list(frag) + [ret], decorator_list=[])
+            attrs = dict(inputs)
+            attrs[result] = (rname, None)
+            tr = Tr(fn, {}, attrs)
+            tr.extra_params = [(n, t) for n, t in inputs.values()]
+            text = tr.emit()
+            src = '\n'.join(ast.unparse(f) for f in frag)
+            info[name] = {'file': rel, 'where': f'{cls}.{meth}', 'source_sha1': hashlib.sha1(src.encode()).hexdigest()[:12], 'translated': True}
+        except (Unsupported, StopIteration) as ex:
+            text = f'/- {name}: NOT TRANSLATABLE ({ex}) -/\n'
+            info[name] = {'file': rel, 'translated': False, 'why': str(ex)}
+        parts.append((f'/-- transcription of the statements computing `{result}` in `{cls}.{meth}` ({rel}) -/\n' if info[name]['translated'] else '') + text)
     body = ('import GeoVerif.Model.Py\n'
             '/-! GENERATED by tools/py2lean.py from the current source of /repo — do not edit. -/\n'
             'set_option linter.unusedVariables false\n'
